@@ -69,7 +69,7 @@ class _(_CanonBase):
         e = pool.gen(rng.randint(0, 3))
         if not xo.well_scoped(e):
             return None
-        return {"e": e, "order": rng.sample(xo.NAMES, 3)}
+        return {"e": e, "order": rng.sample(xo.NAMES, len(xo.NAMES))}
 
     def call_real(self, args):
         dsl = y0mod("y0.dsl")
@@ -103,7 +103,7 @@ class _(_CanonBase):
         return VExpr(r)
 
     def sample_args(self, pool, rng):
-        return {"e": rng.choice(pool.atoms[:-1]), "order": rng.sample(xo.NAMES, 3)}
+        return {"e": rng.choice(pool.atoms[:-1]), "order": rng.sample(xo.NAMES, len(xo.NAMES))}
 
     def call_real(self, args):
         dsl = y0mod("y0.dsl")
@@ -163,7 +163,7 @@ def _s_top(pool, rng):
     e = pool.gen(rng.randint(0, 3))
     if not xo.well_scoped(e) or "Q[" in str(e):
         return None
-    return {"e": e, "order": rng.choice([None, rng.sample(xo.NAMES, 3)])}
+    return {"e": e, "order": rng.choice([None, rng.sample(xo.NAMES, len(xo.NAMES))])}
 
 
 def _c_top(a):
